@@ -1,5 +1,13 @@
+import contextlib
 import signal
 from . import ConductorAbort
+
+# While a task is being launched, an abort must not unwind the stack: the
+# process may already exist without the executor knowing about it yet, in which
+# case nobody would terminate it. Aborts that arrive inside a
+# `defer_abort()` block are remembered and raised when the block ends.
+_defer_depth = 0
+_abort_pending = False
 
 
 def register_signal_handlers():
@@ -8,4 +16,25 @@ def register_signal_handlers():
 
 
 def _terminate_handler(sig, frame):
+    global _abort_pending  # pylint: disable=global-statement
+    if _defer_depth > 0:
+        _abort_pending = True
+        return
     raise ConductorAbort()
+
+
+@contextlib.contextmanager
+def defer_abort():
+    """
+    Delays a `ConductorAbort` triggered by SIGINT/SIGTERM until the end of the
+    `with` block.
+    """
+    global _defer_depth, _abort_pending  # pylint: disable=global-statement
+    _defer_depth += 1
+    try:
+        yield
+    finally:
+        _defer_depth -= 1
+        if _defer_depth == 0 and _abort_pending:
+            _abort_pending = False
+            raise ConductorAbort()
